@@ -8,7 +8,7 @@ from vf.props import track_common as tc
 
 LEVEL = "exploration"
 RULE = ("(a) exhaustive presence patterns of K<=3 animals over F<=4 frames (each frame any subset, 4096+ patterns) crossed with tracker configurations "
-        "{fixed_window,local_queues}x{hungarian,greedy}x{keypoints+oks,centroids+euclid,bboxes+iou}x{mean,max}x window{1,2,3,5} x threshold{0,0.5} "
+        "{fixed_window,local_queues}x{hungarian,greedy}x{keypoints+oks,centroids+euclid,bboxes+iou,keypoints+euclid}x{mean,max}x window{1,2,3,5} x threshold{0,0.5} "
         "(quick: one rotating configuration per pattern; thorough: 48 per pattern incl. every candidate/matching/feature/reduction combination); (b) random hostile histories K<=5, F<=15 with bursts, empty frames, lone animals, "
         "late arrivals, absences longer than the window, shuffled detection order, overlapping and identical poses, NaN nodes, scores around the threshold. "
         "non-trivial = history with >=2 non-empty frames in which the number of detections changes; distinct by (presence pattern, configuration)")
